@@ -37,14 +37,23 @@ type vTLSRun struct {
 // transport; when the server upgrades, `inner` is what the client sends
 // inside TLS. Symbolically the TLS layer is the opaque model of DESIGN §3;
 // natively it is a real TLS client over net.Pipe with a wire tap.
+// vTLSIdle, if set, is what happens while the upgraded connection is idle
+// (the client has sent everything and waits): symbolically it runs inside the
+// Read that finds the TLS stream used up, natively the client calls it after
+// a pause. Reset by vServeTLS.
+var vTLSIdle func()
+
 func vServeTLS(srv *Server, first, inner []byte) vTLSRun {
+	idle := vTLSIdle
+	vTLSIdle = nil
 	if vSymbolic() {
 		raw := vNewConn(first)
 		raw.inner = vNewConn(inner)
+		raw.inner.onIdle = idle
 		escaped := vServeRecovered(srv, raw)
 		return vTLSRun{rawOut: raw.out, innerOut: raw.inner.out, closed: raw.closed >= 1, escaped: escaped}
 	}
-	return vServeTLSNative(srv, first, inner)
+	return vServeTLSNative(srv, first, inner, idle)
 }
 
 // vServeRecovered serves the connection the way an embedder that survives a
@@ -86,7 +95,7 @@ func vSelfSigned() tls.Certificate {
 	return tls.Certificate{Certificate: [][]byte{der}, PrivateKey: key}
 }
 
-func vServeTLSNative(srv *Server, first, inner []byte) vTLSRun {
+func vServeTLSNative(srv *Server, first, inner []byte, idle func()) vTLSRun {
 	if srv.TLSConfig != nil && len(srv.TLSConfig.Certificates) > 0 {
 		srv.TLSConfig = &tls.Config{Certificates: []tls.Certificate{vSelfSigned()}, ClientAuth: srv.TLSConfig.ClientAuth}
 	}
@@ -111,6 +120,12 @@ func vServeTLSNative(srv *Server, first, inner []byte) vTLSRun {
 		}
 		if _, err := tc.Write(inner); err != nil {
 			return
+		}
+		if idle != nil {
+			go func() {
+				time.Sleep(100 * time.Millisecond) // the server has answered and waits for the next message
+				idle()
+			}()
 		}
 		buf := make([]byte, 4096)
 		for {
@@ -218,7 +233,15 @@ func VerifH11() {
 	session := vCat(vStartup(vKV([]byte("user"), []byte("u"))), vMsgBytes('X', nil))
 	if vParam("CLOSEINSIDE", 0) == 1 {
 		vAssume(cfgKind == 2)
-		closer = srv
+		if nondetBool() {
+			closer = srv // Close called from the session middleware
+		} else {
+			// Close called while the connection, set up and answered, waits for its
+			// next message (the client sends nothing after the start-up packet)
+			session = vStartup(vKV([]byte("user"), []byte("u")))
+			vTLSIdle = func() { srv.Close() } //nolint
+			vReach("server-closed-while-an-upgraded-connection-is-idle")
+		}
 		run := vServeTLS(srv, vCat(vSSLRequest, stuffed), session)
 		vAssert("no-panic", !run.escaped)
 		vAssert("ssl-accepted-with-single-S", len(run.rawOut) >= 1 && run.rawOut[0] == 'S')
